@@ -282,6 +282,7 @@ func checkpointIDFromFilePath(filePath string) (id uint64, ok bool) {
 // memory.
 func (s *Store) LoadCheckpoint() error {
 	var loadedCheckpoint *snapshotpb.JobCheckpoint
+	var newestLocalID uint64 // only looked up when starting from a savepoint
 
 	// For now let savepoint always override using local checkpoints. Later will
 	// want to be able to start the job with an out-of-date savepoint to make
@@ -299,6 +300,17 @@ func (s *Store) LoadCheckpoint() error {
 		err = RestoreCheckpointFromSavepointArtifact(s.fileStore, s.savepointURI, snap)
 		if err != nil {
 			return fmt.Errorf("restore checkpoints from savepoint: %v", err)
+		}
+
+		// Checkpoints written after the savepoint may still be in the file store.
+		// Their IDs must not be handed out again, so note the newest of them.
+		for filePath, err := range s.fileStore.List() {
+			if err != nil {
+				return err
+			}
+			if id, ok := checkpointIDFromFilePath(filePath); ok && id > newestLocalID {
+				newestLocalID = id
+			}
 		}
 	} else {
 		// For a new job, check the file store for the latest snapshot file. Files
@@ -328,7 +340,7 @@ func (s *Store) LoadCheckpoint() error {
 	}
 
 	// Set the initial checkpoint ID counter
-	s.state.checkpointID = loadedCheckpoint.Id
+	s.state.checkpointID = max(loadedCheckpoint.Id, newestLocalID)
 
 	// Create a job snapshot from the loaded checkpoint
 	if len(loadedCheckpoint.SourceCheckpoints) != 1 {
